@@ -4,6 +4,7 @@ import itertools
 import json
 import os
 import subprocess
+import time
 
 import gen_signer
 import vlib
@@ -12,6 +13,7 @@ PID = "C16"
 SIGNER_GO = "internal/rules/mechanisms/finalizers/jwt_signer.go"
 GEN_FILE = os.path.join(vlib.LEAN, "HeimdallModel", "Gen", "Signer.lean")
 PRIVATE_MEMBERS = {"d", "p", "q", "dp", "dq", "qi", "oth", "k"}
+CACHE_LEEWAY_NS = 5_000_000_000
 
 
 # ---------------------------------------------------------------------------------------------------------------
@@ -55,8 +57,10 @@ def effective(holder, op):
     return ttl, (holder["name"] or "heimdall")
 
 
-def spec_token(holder, op, res, jwks_keys=None):
-    """list of property failures of one created token"""
+def spec_token(holder, op, res, jwks_keys=None, idx=None):
+    """list of property failures of one token handed out by the execution `op` — freshly signed or taken from the
+    cache (then it was issued for an earlier execution): either way it has to be a token for THIS execution: subject
+    id, issuer, TTL of the finalizer instance that executes; `idx`: position of the operation in its case"""
     bad = []
     if not isinstance(res, dict) or "claims" not in res:
         return bad
@@ -81,7 +85,22 @@ def spec_token(holder, op, res, jwks_keys=None):
         bad.append(f"typ header is {json.dumps(hdr.get('typ'))}")
     if res.get("signed_by", -1) < 0:
         bad.append("the signature verifies under none of the keys of the case")
-    if "verify_any" in res and not res["verify_any"]:
+    tm = res.get("timing")
+    if isinstance(tm, dict):
+        # what the wall clock says about the hand-out (cases with a token cache)
+        if tm.get("exp_minus_now_s", 1) <= 0:
+            bad.append(f"the token was handed out expired ({-tm['exp_minus_now_s']} s after its exp)")
+        cached = idx is not None and res.get("from") != idx
+        if cached and ttl <= CACHE_LEEWAY_NS:
+            bad.append(f"a token issued for operation {res.get('from')} was handed out from the cache by a finalizer "
+                       f"instance whose TTL ({ttl} ns) does not exceed the cache leeway of 5 s")
+        elif cached and tm["age_lower_ns"] > ttl - CACHE_LEEWAY_NS + tm["issue_window_ns"]:
+            bad.append(f"the token handed out from the cache was issued at least {tm['age_lower_ns']} ns earlier, "
+                       f"more than TTL - 5 s = {ttl - CACHE_LEEWAY_NS} ns")
+    overlapped = op.get("inside") is not None and idx is not None and res.get("from") not in (None, idx)
+    # (a cached token handed out by an execution that overlaps a reload of its key store was looked up before the
+    # reload: it names the key that was active then; c16_cache_handout_during_reload)
+    if "verify_any" in res and not res["verify_any"] and not overlapped:
         bad.append(f"the token (kid {hdr.get('kid')}, alg {hdr.get('alg')}) does not verify against any key the JWKS "
                    f"endpoint publishes under that id and algorithm")
     return bad
@@ -105,10 +124,47 @@ def spec_case(case, impl):
         return bad
     for idx, (op, res) in enumerate(zip(case["ops"], impl["ops"])):
         if op["op"] == "sign":
-            bad += [(idx, b) for b in spec_token(case["holders"][op["h"]], op, res)]
+            bad += [(idx, b) for b in spec_token(case["holders"][op["h"]], op, res, idx=idx)]
         elif op["op"] == "jwks":
             bad += [(idx, b) for b in spec_jwks(res)]
     return bad
+
+
+# ---------------------------------------------------------------------------------------------------------------
+# fixes/C16-1.patch (a token signed while the key store was reloaded is cached under the key of the state that signed
+# it). The model describes the repaired behaviour. Until known_findings.json lists the repair under "fixed" (with its
+# name, C16-1), the one input class that shows the defect is counted instead of reported: cases with an execution
+# overlapping a reload of its key store ("inside") on which the implementation behaves exactly like the model of the
+# code before the repair (the token is stored under the stale key: one token more is signed later, or an execution is
+# handed the stale token when the old key is active again).
+
+FIX_PENDING_ID = "C16-reload-inside-execute"
+
+
+def fix_c16_1_pending():
+    if os.environ.get("VERIF_C16_FIX1") in ("fixed", "pending"):   # for trying the other mode out
+        return os.environ["VERIF_C16_FIX1"] == "pending"
+    return not any("C16-1" in f for f in vlib.known_findings().get("fixed", []) if isinstance(f, str))
+
+
+def has_inside(case):
+    return any(o.get("op") == "sign" and o.get("inside") is not None for o in case.get("ops", []))
+
+
+def pending_fix_class(case, impl, model=None, before=None):
+    """With the repair pending: does the implementation behave on this case exactly like the model of the code before
+    the repair (Model/SignerCache.lean: lookupKey — a token signed while the key store was reloaded is stored under
+    the key calculated for the lookup)?  Returns the number of operations that differ from the repaired behaviour
+    (0: not this class). `model` / `before`: the driver's answers for the case as it is / with that policy."""
+    if not has_inside(case):
+        return 0
+    if before is None:
+        before = vlib.run_cases(vlib.driver_cmd(), [dict(case, policy="lookup_key")])[0]
+    if differs(impl, before):
+        return 0
+    fixed = vlib.res_of(model if model is not None else vlib.run_cases(vlib.driver_cmd(), [case])[0])
+    b = vlib.res_of(before)
+    return max(1, sum(1 for x, y in zip(b.get("ops", []), fixed.get("ops", [])) if vlib.canon(x) != vlib.canon(y)))
 
 
 # ---------------------------------------------------------------------------------------------------------------
@@ -120,6 +176,9 @@ def normalise(impl, model):
         return impl, model
     impl = copy.deepcopy(impl)
     impl.pop("transport", None)   # how the JWKS endpoint was reached (loopback TCP, or in-process if no port was free)
+    for i in impl.get("ops", []):
+        if isinstance(i, dict):
+            i.pop("timing", None)  # wall clock readings around a hand-out: judged by spec_token, not by the model
     for i, m in zip(impl.get("ops", []) + impl.get("final", []), model.get("ops", []) + model.get("final", [])):
         if not (isinstance(i, dict) and isinstance(m, dict) and "claims" in i and "claims" in m):
             continue
@@ -176,6 +235,8 @@ def shrink(exe, case, env, failing):
     def fails(ops):
         c = dict(case, ops=ops)
         i, m = run_both(exe, [c], env)
+        if isinstance(i[0], dict) and i[0].get("timing") is True:
+            return False   # the run missed its schedule on the wall clock: nothing observed
         return failing(c, i[0], m[0])
     ops = vlib.ddmin(case["ops"], fails) if len(case["ops"]) > 1 else case["ops"]
     return dict(case, ops=ops)
@@ -330,12 +391,23 @@ def run_watch(R, exe, env, n):
 def nontrivial(stats):
     return stats.get("tokens", 0) > 0 and (stats.get("reserved_named_custom_claims", 0) > 0
                                            or stats.get("reloads_ok", 0) > 0
+                                           or stats.get("cache_hits", 0) > 0
+                                           or stats.get("cache_cross_variant_misses", 0) > 0
                                            or stats.get("published_keys", 0) > stats.get("jwks_reads", 0))
 
 
 def run(R):
+    clock = [time.time()]
+    phases = {}
+
+    def lap(name):
+        now = time.time()
+        phases[name] = round(phases.get(name, 0) + now - clock[0], 1)
+        clock[0] = now
+
     gen_err = regenerate(R)
     lean_ok = vlib.step_lean(R, PID)
+    lap("lean")
     thorough = R.tier == "thorough"
     ov = vlib.jitter_copy(R.tmp, SIGNER_GO)
     exe, log = vlib.build_harness(R.tmp, extra_overlay=ov, pid=PID)
@@ -352,6 +424,7 @@ def run(R):
         if exe_conc is None:
             R.violation("race-detector build of the harness failed", {"build_log": log[-3000:]}, no_input=True)
             return
+    lap("harness_build")
     env = dict(os.environ, TMPDIR=R.tmp, GORACE="halt_on_error=1 exitcode=66")
     pool = gen_signer.POOL_THOROUGH if thorough else gen_signer.POOL_QUICK
     corpus = vlib.load_corpus(PID)
@@ -361,13 +434,30 @@ def run(R):
     # --- sequential stream: implementation vs model vs property
     n = 180 if not thorough else 4000
     grid = gen_signer.grid_cases()
-    cases = seq_corpus + grid + [gen_signer.gen_signer_case(R.rng, pool) for _ in range(n)]
+    nt = 6 if not thorough else 30
+    cases = seq_corpus + grid + [gen_signer.gen_signer_case(R.rng, pool) for _ in range(n)] + \
+        [gen_signer.gen_timed_cache_case(R.rng, pool) for _ in range(nt)]
     impl, model = run_both(exe, cases, env)
+    lap("sequential_run")
     agg = {}
     nontriv = set()
     reported = 0
     transports = {}
-    for c, i, m in zip(cases, impl, model):
+    off_schedule = timed = 0
+    pending = fix_c16_1_pending()
+    before = {}
+    if pending:
+        racing = [k for k, c in enumerate(cases) if has_inside(c)]
+        before = dict(zip(racing, vlib.run_cases(vlib.driver_cmd(), [dict(cases[k], policy="lookup_key")
+                                                                     for k in racing])))
+    for ci, (c, i, m) in enumerate(zip(cases, impl, model)):
+        if (c.get("cache") or {}).get("tick_ms"):
+            timed += 1
+        if isinstance(i, dict) and i.get("timing") is True:
+            # the machine was too busy to keep the schedule of a case on the wall clock in any of the attempts:
+            # nothing was observed (counted in the evidence)
+            off_schedule += 1
+            continue
         st = m.get("stats", {}) if isinstance(m, dict) else {}
         for k, v in st.items():
             if isinstance(v, int):
@@ -386,6 +476,12 @@ def run(R):
             continue
         sb = spec_case(c, i)
         df = differs(i, m)
+        npend = pending_fix_class(c, i, m, before.get(ci)) if (sb or df) and pending else 0
+        if npend:
+            # the defect fixes/C16-1.patch repairs, on a tree without it: the implementation is exactly the model of the
+            # code before the repair. Counted, not reported
+            R.known_hits[FIX_PENDING_ID] = R.known_hits.get(FIX_PENDING_ID, 0) + npend
+            sb, df = [], False
         if (sb or df) and reported < 5:
             reported += 1
             def failing(cc, ii, mm):
@@ -406,6 +502,7 @@ def run(R):
         elif sb or df:
             reported += 1
 
+    lap("sequential_judge")
     # --- concurrent stream
     nc = 32 if not thorough else 280
     ccases = conc_corpus + [gen_signer.gen_conc_case(R.rng, pool) for _ in range(nc)]
@@ -445,7 +542,9 @@ def run(R):
                                                         "kind": "concurrent"}, no_input=False)
             conc_reported += 1
 
+    lap("concurrent")
     run_watch(R, exe, env, 8 if not thorough else 60)
+    lap("watcher")
 
     R.coverage.update({
         "evaluations": len(cases) + len(ccases) + R.coverage.get("watcher_cases", 0),
@@ -456,8 +555,14 @@ def run(R):
                 "operations (token creation through Execute with claims templates naming reserved claims and rule-level "
                 "overrides, reads of the real management JWKS endpoint, reloads through OnChanged); every token is "
                 "taken from the upstream header and verified with go-jose against the endpoint body; implementation "
-                "vs model vs property. Non-trivial sequential case = at least one token created and (custom claims "
-                "naming a reserved claim, or a successful reload, or more than one published key). Concurrent cases: "
+                "vs model vs property. About half of the cases run with the real in-memory cache in the request "
+                "context (the prototype and WithConfig variants differing in TTL and/or claims template, a second "
+                "finalizer with the same key and issuer, the same and other subjects / attributes / outputs again, "
+                "reloads to other, unchanged and earlier stores); timed cases repeat executions inside and outside "
+                "cache lifetimes of 0.5 / 1.5 / 2.5 ticks of 100 ms on the wall clock. Non-trivial sequential case = at "
+                "least one token created and (custom claims naming a reserved claim, or a successful reload, or a "
+                "token served from the cache, or a cached token of the same subject not served because the executing "
+                "instance has another TTL, or more than one published key). Concurrent cases: "
                 "2-3 signer goroutines, 1-2 JWKS readers, 1-3 reloader goroutines firing OnChanged on goroutines of "
                 "their own, mutexes of jwt_signer.go replaced by jitter-adding ones; non-trivial = at least one token "
                 "or key-set read overlapping a reload. Distinct by hash of the case",
@@ -471,12 +576,21 @@ def run(R):
         "first_match_clashes_across_holders": agg.get("first_match_clashes", 0),
         "algorithms": sorted(agg.get("algs", [])),
         "finalizers_created": agg.get("holders_created", 0), "finalizers_rejected": agg.get("holders_failed", 0),
+        "cases_with_token_cache": agg.get("cache_cases", 0), "timed_cache_cases": timed,
+        "tokens_signed_while_the_key_store_was_reloaded": agg.get("cache_stores_during_reload", 0),
+        "fix_C16_1_listed_as_fixed": not pending,
+        "operations_showing_the_defect_of_pending_fix_C16_1": R.known_hits.get(FIX_PENDING_ID, 0),
+        "timed_or_cached_cases_off_schedule_not_judged": off_schedule,
+        "tokens_served_from_cache": agg.get("cache_hits", 0), "tokens_signed_with_cache": agg.get("cache_misses", 0),
+        "tokens_stored_in_cache": agg.get("cache_stores", 0),
+        "fresh_tokens_while_same_subject_cached_under_other_ttl": agg.get("cache_cross_variant_misses", 0),
         "concurrent_histories_checked": nhist, "concurrent_observations": nobs,
         "concurrent_observations_overlapping_a_reload": noverlap,
         "race_detector": thorough, "jitter_overlay": bool(ov), "jwks_endpoint_transport": transports,
         "grid_cases": len(grid),
         "samples": [cases[len(seq_corpus) + len(grid)]] if len(cases) > len(seq_corpus) + len(grid) else [cases[0]],
         "disagreements_checked": reported + conc_reported,
+        "seconds_per_phase": phases,
     })
     R.assumptions += [
         "cryptography is opaque in the model: a signature made with a private key verifies exactly under that key's "
@@ -492,7 +606,18 @@ def run(R):
         "abstractEv, sections) and the inlining of receiver method calls by the extractor are part of the trusted tie",
         "the issue time is read from the wall clock inside Sign: the check brackets it by clock readings before and "
         "after the call and compares exp/nbf relative to iat",
+        "token cache: the model says which inputs the cache key covers (signer hash = key id, algorithm, issuer, "
+        "public key; claims template; TTL; subject id and attributes; outputs), not its bytes (C11); the store is "
+        "modelled as the in-memory TTL store (C10 ties its semantics); template rendering is assumed to be a function "
+        "of template, subject and outputs; executions of one history are sequential (concurrent executions racing "
+        "for one cache entry are not modelled); cases on the wall clock that miss their schedule are repeated and, "
+        "if the machine stays too busy, not judged (counted)",
     ]
+    if R.known_hits.get(FIX_PENDING_ID):
+        print(f"FIX-PENDING: property={PID} fixes/C16-1.patch is not listed as fixed in known_findings.json: a token signed "
+              f"while the key store was reloaded is cached under the key calculated before the reload and handed out "
+              f"when that key is active again ({R.known_hits[FIX_PENDING_ID]} operations this run behave like the model of the "
+              f"code before the repair: counted, not reported)")
     if gen_err:
         R.violation("extraction of the locking protocol of jwtSigner from the source failed: " + gen_err, {"error": gen_err},
                     no_input=True)
@@ -536,6 +661,9 @@ def replay(R, path):
         return
     i, m = run_both(exe, [c], env)
     i, m = i[0], m[0]
+    if isinstance(i, dict) and i.get("timing") is True:
+        print("the machine is too busy to keep the schedule of this case on the wall clock: nothing observed")
+        return
     print("impl :", json.dumps(i)[:3000])
     print("model:", json.dumps(vlib.res_of(m))[:3000])
     sb = spec_case(c, i)
